@@ -637,7 +637,12 @@ class Ev:
                 return -self.ev(e.operand)
             if isinstance(e.op, ast.UAdd):
                 return self.ev(e.operand)
+            if isinstance(e.op, (ast.Invert, ast.Not)):
+                return Rat.atom('mask:' + ' '.join(unparse(e).split()))
             raise Inconclusive(unparse(e))
+        if isinstance(e, ast.BinOp) and isinstance(
+                e.op, (ast.BitOr, ast.BitAnd)):
+            return Rat.atom('mask:' + ' '.join(unparse(e).split()))
         if isinstance(e, ast.BinOp):
             if isinstance(e.op, ast.Pow):
                 c = const_of(e.right)
@@ -669,7 +674,9 @@ class Ev:
                 c = self.choose(e, self)
                 if c is not None:
                     return ONE if c else ZERO
-            raise Inconclusive('comparison as a value ' + unparse(e))
+            # a boolean mask kept as a value: opaque, only usable as the
+            # condition of np.where / a masked store (decided by `choose`)
+            return Rat.atom('mask:' + ' '.join(unparse(e).split()))
         if isinstance(e, ast.IfExp):
             if self.choose is not None:
                 c = self.choose(e.test, self)
@@ -732,6 +739,9 @@ class Ev:
             return a * b
         if isinstance(op, ast.Div):
             return a / b
+        if isinstance(op, ast.FloorDiv):
+            # integer quotient: opaque (equal arguments give the same atom)
+            return self.sym.opaque('floordiv', (a, b))
         raise Inconclusive('operator ' + type(op).__name__)
 
     def read(self, key):
@@ -787,6 +797,17 @@ class Ev:
                 v = self.ev(e.args[0])
                 if isinstance(v, tuple):
                     return v
+            if name == 'where' and len(e.args) == 3:
+                # elementwise selection: the caller's hook says which branch
+                # the elements under consideration take
+                if self.choose is not None:
+                    c = self.choose(e.args[0], self)
+                    if c is not None:
+                        return self.ev(e.args[1] if c else e.args[2])
+                raise Inconclusive('np.where with undecided condition ' +
+                                   unparse(e.args[0]))
+            if name in ('isfinite', 'isnan', 'isinf') and e.args:
+                return Rat.atom('mask:' + ' '.join(unparse(e).split()))
             if name == 'square' and e.args:
                 a = self.ev(e.args[0])
                 return a * a
